@@ -53,6 +53,11 @@ pub struct Case {
     /// > 1: the queries are issued by that many concurrent simulated caller tasks sharing the robot
     #[serde(default)]
     pub clients: usize,
+    /// requests are issued in reverse order (last query first, last entry point first). Set for
+    /// the phase after a reconfiguration: its first request is then identical to the last request
+    /// made before the robot was re-configured
+    #[serde(default)]
+    pub reverse: bool,
 }
 
 #[derive(Clone, Debug, Serialize, Deserialize)]
@@ -143,8 +148,14 @@ fn mesh_bits(m: &parry3d::shape::TriMesh, out: &mut Vec<u64>) {
     out.push(h);
 }
 
-fn one_query(robot: &KinematicsWithShape, q: &Query) -> QObs {
-    let sols: [Sols; 4] = std::array::from_fn(|w| entry(robot, w, q));
+fn one_query(robot: &KinematicsWithShape, q: &Query, reverse: bool) -> QObs {
+    let sols: [Sols; 4] = if reverse {
+        let mut rev: Vec<Sols> = (0..4).rev().map(|w| entry(robot, w, q)).collect();
+        rev.reverse();
+        rev.try_into().unwrap_or_else(|_| unreachable!())
+    } else {
+        std::array::from_fn(|w| entry(robot, w, q))
+    };
     let reported: [Vec<bool>; 4] = std::array::from_fn(|w| sols[w].iter().map(|s| robot.collides(s)).collect());
     let deleg = delegated(robot, &q.q);
     let mut pos = Vec::new();
@@ -175,9 +186,15 @@ fn execute(robot: &Arc<KinematicsWithShape>, case: &Case, cfg: &SimCfg) -> SimOu
     let robot = robot.clone();
     let queries = case.queries.clone();
     let clients = case.clients.max(1);
+    let reverse = case.reverse;
     sim::simulate(cfg, move || {
         if clients <= 1 {
-            return queries.iter().map(|q| one_query(robot.as_ref(), q)).collect();
+            if reverse {
+                let mut out: Vec<QObs> = queries.iter().rev().map(|q| one_query(robot.as_ref(), q, true)).collect();
+                out.reverse();
+                return out;
+            }
+            return queries.iter().map(|q| one_query(robot.as_ref(), q, false)).collect();
         }
         // concurrent callers: every caller issues ALL queries (so that identical work overlaps),
         // caller 0's answers are the observed ones, the others' must be identical to them
@@ -191,7 +208,7 @@ fn execute(robot: &Arc<KinematicsWithShape>, case: &Case, cfg: &SimCfg) -> SimOu
                 let mut mine: Vec<Option<QObs>> = vec![None; n];
                 for k in 0..n {
                     let i = (k + c) % n;
-                    mine[i] = Some(one_query(robot.as_ref(), &queries[i]));
+                    mine[i] = Some(one_query(robot.as_ref(), &queries[i], reverse));
                 }
                 slots.lock().unwrap()[c] = mine.into_iter().map(|o| o.unwrap()).collect();
             }));
@@ -251,7 +268,7 @@ fn judge_with(
             if rc.drop_last_env && !case.cell.env.is_empty() {
                 r.body.collision_environment.pop();
             }
-            let case2 = Case { cell: cell2, queries: case.queries.clone(), cfgs: vec![case.cfgs[0].clone()], reconfigure: None, clients: case.clients };
+            let case2 = Case { cell: cell2, queries: case.queries.clone(), cfgs: vec![case.cfgs[0].clone()], reconfigure: None, clients: case.clients, reverse: true };
             fails.extend(judge_phase(&case2, robot, &mut |_, out| observe(usize::MAX, out), &mut |_, _, _| {}, "/after-reconfiguration"));
         }
     }
@@ -642,7 +659,7 @@ pub fn gen_case(seed: u64, shard: u64, run: u64, t: &Tier) -> Case {
         None
     };
     let clients = if knobs.chance(0.3) { knobs.range_usize(2, 3) } else { 1 };
-    Case { cell, queries, cfgs, reconfigure, clients }
+    Case { cell, queries, cfgs, reconfigure, clients, reverse: false }
 }
 
 pub fn run(tier_name: &str, seed: u64) -> i32 {
